@@ -11,41 +11,28 @@ Definition w_catalog : list op :=
   [OCreate 1 1 2 3 2; ODml 1 [(1, 1)] [BStore 1 0 4; BStore 1 1 5; BStore 101 1 6] []; OCreate 2 7 2 8 2].
 
 (* class 3: pages stored behind the dirty tracker's back are not in the power-loss image:
-   after the acknowledged CREATE TABLE the root page (1,1) of the new table is missing, and
-   after the acknowledged INSERT the header page (1,0) is the one written at creation *)
-Lemma power_unlogged_refuted_l :
-  exists os i, wf_run init os = true /\ existsb is_api_ckpt os = false /\ in_txn (run init (firstn i os)) = false
-    /\ vol (run init (firstn i os)) (1, 1) = Some 2
-    /\ r_pages (recover Power (run init (firstn i os))) (1, 1) = None.
-Proof. exists w_catalog, 1%nat. vm_compute. repeat split; auto. Qed.
-
+   after the acknowledged INSERT the header page (1,0) of the table is still the one synced at creation *)
 Lemma power_header_stale_refuted_l :
   exists os i, wf_run init os = true /\ existsb is_api_ckpt os = false /\ in_txn (run init (firstn i os)) = false
     /\ vol (run init (firstn i os)) (1, 0) = Some 4
     /\ r_pages (recover Power (run init (firstn i os))) (1, 0) = Some 1.
 Proof. exists w_catalog, 2%nat. vm_compute. repeat split; auto. Qed.
 
-(* class 4: Database::checkpoint() truncates the log without syncing the table files; the next
-   synced batch makes the truncation durable: page (1,2), logged and acknowledged, is gone *)
+(* Database::checkpoint() msyncs the open data files before it truncates the log and syncs the
+   truncation: page (1,2), logged and acknowledged, survives the checkpoint and the next batch *)
 Definition w_apickpt : list op :=
   [OCreate 1 1 2 3 2; OCreate 2 4 2 5 2;
    ODml 1 [(1, 2)] [BGrow 1; BStore 1 2 6] [];
-   OApiCkpt;
+   OApiCkpt [1; 101; 2; 102];
    ODml 2 [(2, 2)] [BGrow 2; BStore 2 2 7] []].
 
-Lemma power_apickpt_refuted_l :
-  exists os i, wf_run init os = true /\ in_txn (run init (firstn i os)) = false
-    /\ kmem (1, 2) (g_unl (ghost_run init ghost0 (firstn i os))) = false
-    /\ vol (run init (firstn i os)) (1, 2) = Some 6
-    /\ r_pages (recover Power (run init (firstn i os))) (1, 2) = None.
-Proof. exists w_apickpt, 5%nat. vm_compute. repeat split; auto. Qed.
-
-(* ... while without the Database::checkpoint() call the same page survives *)
-Example power_without_apickpt :
-  let os := [OCreate 1 1 2 3 2; OCreate 2 4 2 5 2; ODml 1 [(1, 2)] [BGrow 1; BStore 1 2 6] [];
-             ODml 2 [(2, 2)] [BGrow 2; BStore 2 2 7] []] in
-  r_pages (recover Power (run init os)) (1, 2) = Some 6.
-Proof. vm_compute. reflexivity. Qed.
+Example power_apickpt_survives :
+  wf_run init w_apickpt = true /\ in_txn (run init w_apickpt) = false
+  /\ vol (run init w_apickpt) (1, 2) = Some 6
+  /\ r_pages (recover Power (run init w_apickpt)) (1, 2) = Some 6
+  /\ r_pages (recover Power (at_pos w_apickpt 3 5)) (1, 2) = Some 6     (* truncated, truncation not yet synced *)
+  /\ r_pages (recover Kill (at_pos w_apickpt 3 5)) (1, 2) = Some 6.
+Proof. vm_compute. repeat split; reflexivity. Qed.
 
 (* class 2: a process kill while pages are dirty (open transaction after a checkpoint: nothing in the
    log covers the pages): the in-place stores of the uncommitted transaction are in the image,
@@ -65,10 +52,10 @@ Proof. exists w_torn, 4%nat, 4%nat. vm_compute. repeat split; auto. Qed.
 (* class 5: table id of a user table = id of a system table (database closed before its first
    CREATE TABLE) and turdb_catalog/ listed after root/: the frames of table 1 are replayed into
    the system table's file; after a power loss the acknowledged INSERT into table 1 is gone
-   (its root page exists only in those frames), while without the collision it survives *)
+   (its leaf page is back to the empty root synced at creation), while without the collision it survives *)
 Lemma power_id_collision_refuted_l :
   exists os i, wf_run init os = true /\ existsb is_api_ckpt os = false /\ in_txn (run init (firstn i os)) = false
     /\ vol (run init (firstn i os)) (1, 1) = Some 5
-    /\ r_pages (recover_sh [1] Power (run init (firstn i os))) (1, 1) = None
+    /\ r_pages (recover_sh [1] Power (run init (firstn i os))) (1, 1) = Some 2
     /\ r_pages (recover Power (run init (firstn i os))) (1, 1) = Some 5.
 Proof. exists w_catalog, 2%nat. vm_compute. repeat split; auto. Qed.
